@@ -32,6 +32,18 @@ def native_py(contract, name, conc, notes):
     if contract.target.__name__.endswith("_after_new_frame"):
         return RP.replay(contract, name, {k: v for k, v in conc.items()}, call_history, S)
 
+    if contract.target.__qualname__ == "StructDesc.__init__":
+        from ebpfcat.ebpfcat import StructDesc
+        from ebpfcat.ethercat import SyncManager
+        bad = []
+        for args, want in (((0x10,), (0x10, 0x10, 0x10)), ((0x10, 4), (0x10, 4, 0x10)), ((0x10, 4, 7), (0x10, 4, 7))):
+            d = StructDesc(object, *args)
+            got = (d.position_offset[SyncManager.IN], d.position_offset[SyncManager.OUT], d.position_offset[None])
+            if got != want:
+                bad.append((args, got, want))
+        return {"inputs": {"channels": "Channel(0x10), Channel(0x10, 4), Channel(0x10, 4, 7)"}, "reproduced": bool(bad),
+                "detail": f"real StructDesc: (arguments, (IN, OUT, CoE) offsets, expected) {bad}"}
+
     if contract.target.__qualname__ == "ProcessDesc.__get__":
         from ebpfcat.ebpfcat import ProcessDesc
         from ebpfcat.ethercat import SyncManager, Terminal
